@@ -94,6 +94,8 @@ func newImageIndexForImage(image bufimage.Image, options *imageFilterOptions) (*
 		pkg := addPackageToIndex(imageFile.FileDescriptorProto().GetPackage(), index)
 		pkg.files = append(pkg.files, imageFile)
 		fileName := imageFile.Path()
+		// Register every file, so that a file that declares no types is still known.
+		index.FileTypes[fileName] = nil
 		fileDescriptorProto := imageFile.FileDescriptorProto()
 		index.ByDescriptor[fileDescriptorProto] = elementInfo{
 			fullName: pkg.fullName,
